@@ -47,6 +47,18 @@ CHECKS = {
             "Executes serialize_value/deserialize_value, serialize_macro_args/deserialize_macro_args and bincode over `impl Serialize/Deserialize for Value`, `for Type` and TypeNodeId of the repository on every value of depth <= 2 / width <= 2 over 14 boundary leaves (NaN payloads, -0.0, inf, subnormal, empty/non-ASCII/NUL/64 KiB strings, code), every depth-3 constructor chain, every type of depth <= 2 / width <= 2 over 9 leaves and every depth-3 type-constructor chain, plus random deeper/wider artefacts; compares what was decoded with what was encoded (floats by bits, strings by bytes, ordered record keys, u64 tags, expression/type identity) and requires an Err for values that cannot cross, in every nesting context of depth <= 2. Exhaustive within the stated bounds, sampled beyond; nothing is modelled.",
             "Trusts the harness' structural comparator; host and plugin share the interner (as plugin/loader.rs arranges), so ids are compared by key first; bincode is the only wire format exercised; Value::ErrorV (known finding, altered to Unit) is excluded from general exploration by the quarantine errorv-leaf and replayed as a witness; Miri only on demand (tools/c20_miri.sh).", "DESIGN.md §3 C20"),
 }
+CHECKS["C04"] = (
+    "outcome + span oracle over the real front end and both compile entry points on exhaustively enumerated lexeme sequences, nesting ladders, corpus prefixes/suffixes, token mutations and Unicode splices; every text runs in a sandboxed child on a 2 MiB stack",
+    "Calls parser::tokenize/preparse/parse_cst/parse_to_expr, mirgen::typecheck_with_module_info, the language server's analyze_source and Context::emit_bytecode/emit_wasm (contexts built by ExecContext) on every generated text and observes the outcome: panic (caught, signature = file + message head), stack overflow (SIGSEGV handler at the guard page of the 2 MiB thread, class decided by a rerun with 256 MiB), runaway allocation (death at the 1.5 GiB address-space limit and again, with a larger peak, at twice the limit), hang (30 s in one phase, confirmed alone with 120 s) and the byte range of every diagnostic label against the text. Exhaustive for all lexeme sequences up to the stated lengths and all ladders up to 64 levels; sampled beyond (mutations, Unicode, cut points of expensive files).",
+    "Trusts the harness' child supervision (status file written before each phase, wait4 resource usage) for attributing crashes; 'has syntax or type errors' is decided by the front end's own diagnostics; plugin set = scheduler (+ audio driver on the VM context), not MIDI/sampler/GUI.",
+    "DESIGN.md §3 C04",
+)
+CHECKS["C16"] = (
+    "metamorphic oracle: original vs transformed program (consistent renaming to fresh / compiler-like / case-variant names, redundant parentheses, layout and comments inside brackets, agreeing annotations) on both back ends",
+    "Each generated core program is transformed at the AST level (renaming of every user identifier and record field, full annotation with the generator's own types, pseudo-random redundant parentheses) or at the text level (whitespace, comments and line breaks after ( [ , inside brackets; also applied to every shipped source); original and transformed text are compiled and run on VM and WASM with identical inputs and must agree on accept/reject and on every output bit.",
+    "Trusts the G-AST printer and renamer (names never collide with keywords/builtins); the comparison is per back end, so back-end disagreements (C01) do not leak in.",
+    "DESIGN.md §3 C16",
+)
 PENDING = {}
 
 def main():
